@@ -226,6 +226,7 @@ func TestC09_Finding_F_C09_1(tt *testing.T) {
 		dnsForwarderFactory = w.factory
 		defer func() {
 			w.abort()
+			synctest.Wait()
 			w.mu.Lock()
 			w.shutdown = true
 			w.mu.Unlock()
